@@ -355,6 +355,14 @@ def run(ctx):
                                           'myth_entry_point_1', 'myth_entry_point_2'], stops=stops01, flavour=fl)
             ctx.attempt(c01.rule6_finish, ctx, v01)
         from . import c10
+        with ctx.shared({'C10.4': 'C11.10', 'C10.5': 'C11.10'}, floor=10,
+                        doc='a live key is never handed out twice (shared with C10.4 / C10.5): creation and deletion update the key free list '
+                            'in one lock region each, with the liveness mark tested and set inside it - a key index that two owners hold '
+                            'has one destructor slot, so one owner\'s values are destructed by the other\'s function or not at all'):
+            v10k = ctx.view(NATIVE, roots=['myth_tls_tree_get', 'myth_tls_tree_set', 'myth_tls_key_allocator_alloc',
+                                           'myth_tls_key_allocator_dealloc', 'myth_tls_tree_node_alloc_leaf', 'myth_tls_tree_node_alloc_node'],
+                            stops=('myth_tls_tree_node_alloc', 'myth_malloc') + lib.SPIN_STOPS, flavour=fl)
+            ctx.attempt(c10.rule45_alloc, ctx, fl, v10k)
         with ctx.shared({'C10.3': 'C11.8'}, floor=2,
                         doc='a new thread starts with an empty thread-specific tree on both creation paths (shared with C10.3): a recycled '
                             'record that keeps its previous owner\'s tree makes the exit walk call destructors on values this thread never '
